@@ -5,6 +5,9 @@ HERE = os.path.dirname(os.path.abspath(__file__))
 
 CHECKS = {
  # id: (level, technique, level text, level note)
+ "C16": ("translation_validation", "property-based testing of flatten(): generated hierarchies validated against the reference interpreter's flat circuit (isomorphism), plus adversarial ':' names",
+         "For generated hierarchies (leaves at every level, shared sub-modules, buses, pass-through ports, port-less sub-modules) flatten(m) must return only primitive / external instances, one per leaf device, with m's ports unchanged, and its package must be isomorphic to the reference interpreter's circuit of m; designs flatten may refuse (slices, concats, ':' in names) must raise or be right.",
+         "Trusts the reference interpreter and package reader; sampled; the flatten-must-succeed class is decided from the elaborated hierarchy (all connections whole signals, no ':' in names)."),
  "C01": ("translation_validation", "property-based testing: Hypothesis-generated design programs, each validated against a reference interpreter (differential oracle, isomorphism of flat circuits)",
          "Each generated design program is built and exported by Hdl21 in a pristine process and its package, read with the netlisters' bit order, is compared up to isomorphism with an independent reference interpreter's flat circuit (devices, net partition over terminal and port bits, no-connect isolation).",
          "Trusts the reference interpreter (vlib/model.py), vlsir/protobuf and the vlsirtools bit-order convention; sampled program space with measured feature histogram; rejections are counted, not failures."),
